@@ -83,7 +83,20 @@ def _services():
         return lambda w, it, f: it.call(it.module_global(w.repo.modules[mod], name), [f])
     sub = lambda w, it, f: it.call(it.getattr(f, "substitute"), [{w.symbol("a", ("BOOL",)): w.symbol("c", ("BOOL",)),
                                                                   w.symbol("x", ("INT",)): w.symbol("y", ("INT",))}])
+    def smt_text(w, it, f):
+        fn = it.module_global(w.repo.modules["pysmt.smtlib.printers"], "to_smtlib")
+        return it.call(fn, [f], {"daggify": False})
+
+    def smt_script(w, it, f):
+        from ..absint import ExtRef
+        mk = it.module_global(w.repo.modules["pysmt.smtlib.script"], "smtlibscript_from_formula")
+        sio = it.call(ExtRef("io.StringIO"), [])
+        it.call(it.getattr(it.call(mk, [f]), "serialize"), [sio], {"daggify": True})
+        text = it.call(it.getattr(sio, "getvalue"), [])
+        # the declarations are written in the iteration order of a set of symbols: compared as a multiset of lines
+        return tuple(sorted(text.split("\n"))) if isinstance(text, str) else text
     return {
+        "serialize": (meth("serialize"), False), "to_smtlib": (smt_text, False), "smt-lib script": (smt_script, False),
         "simplify": (meth("simplify"), False), "substitute": (sub, False), "get_type": (meth("get_type"), False),
         "free variables": (meth("get_free_variables"), False), "atoms": (meth("get_atoms"), False),
         "size": (meth("size"), False), "get_logic": (modfn("pysmt.oracles", "get_logic"), False),
@@ -97,9 +110,10 @@ def _history_shapes():
     x, y, z = S("x", INT), S("y", INT), S("z", INT)
     lt = ("LT", ("Plus", x, y), z)
     o = ("Or", a, lt)
-    targets = [("And", o, ("Not", ("And", b, o))), ("Implies", ("Iff", a, b), ("Ite", c, lt, ("Not", lt))),
+    kw1, kw2 = S("let"), S("push")           # names both concrete syntaxes have to quote, each in its own way
+    targets = [("And", kw1, ("Or", kw2, a)), ("And", o, ("Not", ("And", b, o))), ("Implies", ("Iff", a, b), ("Ite", c, lt, ("Not", lt))),
                ("forall", [("a", BOOL)], ("Or", a, ("And", b, lt))), ("Equals", ("Times", ("lit", 2, INT), ("Plus", x, y)), ("Minus", z, x))]
-    history = [o, ("And", b, o), ("Not", lt), ("Plus", x, y), ("Iff", a, b), ("Or", ("And", b, lt), c),
+    history = [("Or", kw1, ("Not", kw2)), o, ("And", b, o), ("Not", lt), ("Plus", x, y), ("Iff", a, b), ("Or", ("And", b, lt), c),
                ("exists", [("b", BOOL)], ("And", b, lt)), ("LE", ("Plus", x, y), ("lit", 0, INT)), ("And", a, ("Not", a))]
     return targets, history
 
@@ -124,7 +138,8 @@ def _hist_job(job):
         from ..absint import ExtRef
         for ht in history:
             h = proc.build_shape(w, ht)
-            for nm in ("simplify", "substitute", "get_type", "free variables", "atoms", "size", "get_logic", "nnf", "aig"):
+            for nm in ("serialize", "to_smtlib", "simplify", "substitute", "get_type", "free variables", "atoms", "size", "get_logic",
+                       "nnf", "aig"):
                 if w.nsort(h) != ("BOOL",) and nm in ("nnf", "aig", "atoms"):
                     continue
                 try:
